@@ -33,6 +33,8 @@ int ev_is(const Ev *ev, const char *name);
 /* exact-size heap block: ASan redzones begin at the first illegal octet */
 void *xblock(size_t n);
 void xfree(void *p);
+void *xblock0(void);
+void xfree0(void *p);
 /* number of ASan reports seen so far (recover mode) */
 extern volatile int asan_reports;
 /* 64-bit value <-> four 16-bit words, most significant first */
